@@ -144,8 +144,8 @@ def run_check(prop, tier, sizes, scale=1.0):
 
     wall = time.monotonic() - t0
     ev = build_evidence(prop, tier, base, good, harness, reported, known_hits, det, wall, wall_r + wall_s, workers, ns)
-    os.makedirs(os.path.join(VERIF, "evidence"), exist_ok=True)
-    with open(os.path.join(VERIF, "evidence", f"{prop}.json"), "w") as fh:
+    os.makedirs(os.path.join(driver.OUT, "evidence"), exist_ok=True)
+    with open(os.path.join(driver.OUT, "evidence", f"{prop}.json"), "w") as fh:
         json.dump(ev, fh, indent=1)
     c = ev["coverage"]
     print(f"runs={c['runs']} ops={c['evaluations']} distinct_nontrivial={c['distinct_nontrivial']} "
@@ -157,8 +157,8 @@ def run_check(prop, tier, sizes, scale=1.0):
 
 
 def _write_nondet_replay(prop, mode, seed, res):
-    os.makedirs(os.path.join(VERIF, "replays"), exist_ok=True)
-    path = os.path.join(VERIF, "replays", f"{prop}-nondet-{seed}.json")
+    os.makedirs(os.path.join(driver.OUT, "replays"), exist_ok=True)
+    path = os.path.join(driver.OUT, "replays", f"{prop}-nondet-{seed}.json")
     with open(path, "w") as fh:
         json.dump({"property": prop, "profile": prop, "seed": seed, "mode": mode,
                    "expected": {"oracle": "determinism", "callee": mode}}, fh, indent=1)
